@@ -93,8 +93,12 @@ def run(prop, tier, seed, replay=None):
                      {"s1": c["s1"], "s2": c["s2"], "err": c["skip"]})
     res = [c for c in res if "skip" not in c]
     full = {c["id"]: c for c in res}
-    verdicts, r = tlc.judge("Trace_Spell", res)
-    rep.add_tlc(r, "judge Trace_Spell (Canon premise + same_across_spellings)")
+    verdicts = {}
+    SB = 1500
+    for kb in range(0, len(res), SB):
+        vb, r = tlc.judge("Trace_Spell", res[kb : kb + SB])
+        rep.add_tlc(r, f"judge Trace_Spell (Canon premise + same_across_spellings) batch {kb // SB}")
+        verdicts.update(vb)
     rep.judged = len(verdicts)
     for cid, v in verdicts.items():
         c = full[cid]
